@@ -64,6 +64,7 @@ class Analyzer:
         self.mutable_globals = []     # descriptions
         self.module_writes = []       # import-time writes to module-level mutable objects
         self.classes = {}             # class name -> module
+        self.imports = {}             # module -> psec modules it imports
 
     def load(self):
         for fn in sorted(os.listdir(self.pkgdir)):
@@ -72,6 +73,7 @@ class Analyzer:
             mod = fn[:-3]
             tree = ast.parse(open(os.path.join(self.pkgdir, fn)).read(), filename=fn)
             self.scan_module(mod, tree)
+            self.scan_imports(mod, tree, {x[:-3] for x in os.listdir(self.pkgdir) if x.endswith(".py")})
         self.analyzed = set()
         for f in list(self.fns.values()):
             if f.qual not in self.analyzed:
@@ -79,6 +81,28 @@ class Analyzer:
         self.close_self_writes()
 
     # -- module level -----------------------------------------------------
+    def scan_imports(self, mod, tree, names):
+        """psec modules imported by `mod` (any form: `from psec import tools as _tools`, `from . import des`, `import psec.mac`,
+        `from psec.tools import xor`, also inside functions)"""
+        out = set()
+        for n in ast.walk(tree):
+            if isinstance(n, ast.ImportFrom):
+                base = (n.module or "").split(".")
+                if n.level or base[0] == "psec":
+                    tail = [x for x in base if x and x != "psec"]
+                    if tail and tail[0] in names:
+                        out.add(tail[0])
+                    for a in n.names:
+                        if a.name in names:
+                            out.add(a.name)
+            elif isinstance(n, ast.Import):
+                for a in n.names:
+                    parts = a.name.split(".")
+                    if parts[0] == "psec" and len(parts) > 1 and parts[1] in names:
+                        out.add(parts[1])
+        out.discard(mod)
+        self.imports[mod] = sorted(out)
+
     def scan_module(self, mod, tree):
         names = set()
         for node in tree.body:
@@ -342,7 +366,21 @@ class Analyzer:
         elif isinstance(s, (ast.Pass, ast.Break, ast.Continue, ast.Import, ast.ImportFrom)):
             pass
         elif isinstance(s, ast.Match):
-            f.unknown.append("match statement")
+            # every name a pattern captures refers to (a part of) the subject: it gets the subject's category
+            self.exprs(f, s.subject, env)
+            subj = self.classify(f, s.subject, env)
+            for case in s.cases:
+                e1 = dict(env)
+                for n in ast.walk(case.pattern):
+                    nm = getattr(n, "name", None) or getattr(n, "rest", None)
+                    if isinstance(nm, str):
+                        e1[nm] = worst(e1.get(nm, subj), subj)
+                    if isinstance(n, ast.MatchValue):
+                        self.exprs(f, n.value, e1)
+                if case.guard is not None:
+                    self.exprs(f, case.guard, e1)
+                self.block(f, case.body, e1)
+                self.merge(env, e1)
         else:
             self.exprs(f, s, env)
 
@@ -414,6 +452,18 @@ def emit(an, path):
     lines.append("")
     lines.append(f"def moduleLevelWrites : List String := {lean_list(sorted(an.module_writes))}")
     lines.append(f"def mutableGlobals : List String := {lean_list(sorted(an.mutable_globals))}")
+    # the same rows grouped by module (so that the per-property scope theorems need no string surgery in the kernel)
+    mods = sorted({q.split(".")[0] for q in an.fns} | set(an.imports))
+    lines.append("def byModule : List (String × List FnEffect) := [")
+    grp = []
+    for m in mods:
+        rs_ = [r for q, r in zip(sorted(an.fns), rows) if q.split(".")[0] == m]
+        grp.append(f"  ({lean_str(m)}, [\n  " + ",\n  ".join(rs_) + "])")
+    lines.append(",\n".join(grp))
+    lines.append("]")
+    lines.append("def writesByModule : List (String × List String) := [" + ", ".join(
+        f"({lean_str(m)}, {lean_list(sorted(w for w in an.module_writes if w.split(':')[0] == m))})" for m in mods) + "]")
+    lines.append("def moduleImports : List (String × List String) := [" + ", ".join(f"({lean_str(m)}, {lean_list(v)})" for m, v in sorted(an.imports.items())) + "]")
     lines.append("")
     lines.append("end Psec.Generated")
     src = "\n".join(lines) + "\n"
